@@ -8,6 +8,7 @@ import os
 import numpy as np
 
 LOG: list = []  # in-process call log: (function name, rendered args)
+STRICT_SEQ = False  # render tuples as "(...)" instead of "[...]"
 LOG_FILE: str | None = None  # if set, bodies also append a JSON line (O_APPEND) — for process pools / crash children
 
 
@@ -23,6 +24,8 @@ def T(x) -> str:
         if x.ndim == 0:
             return T(x.item())
         return "[" + ",".join(T(x[i]) for i in range(x.shape[0])) + "]"
+    if STRICT_SEQ and isinstance(x, tuple):
+        return "(" + ",".join(T(e) for e in x) + ")"  # a check that must tell a tuple from a list sets STRICT_SEQ
     if isinstance(x, (list, tuple)):
         return "[" + ",".join(T(e) for e in x) + "]"
     return str(x)
